@@ -14,11 +14,13 @@ import treeutil
 
 ID = 'C03'
 NOT_READY = None
-LEAN_MODULES = ['Yaql.Props.C03', 'Yaql.Props.C03Lex', 'Yaql.Props.C03Parse']
+LEAN_MODULES = ['Yaql.Props.C03', 'Yaql.Props.C03Lex', 'Yaql.Props.C03Parse', 'Yaql.Props.C03Bound']
 REQUIRED_THEOREMS = ['Yaql.Props.C03.total_classified', 'Yaql.Props.C03.lexical_position_inside',
                      'Yaql.Props.C03.grammar_position_inside', 'Yaql.Props.C03.parseText_eq_parse',
                      'Yaql.Props.C03.grammar_before_later_lexical', 'Yaql.Props.C03Lex.nextTok_progress',
-                     'Yaql.Props.C03Lex.conversions_total', 'Yaql.Props.C03Parse.parse_total_classified']
+                     'Yaql.Props.C03Lex.conversions_total', 'Yaql.Props.C03Parse.parse_total_classified',
+                     'Yaql.Props.C03Bound.tokens_printable', 'Yaql.Props.C03Bound.grammar_error_value_printable',
+                     'Yaql.Props.C03Bound.over_limit_numeral_stops', 'Yaql.Props.C03Bound.digitsVal_lt']
 TRUSTED = ["ply's LALR(1) table construction and its token/rule dispatch (modelled by its documented effect)",
            "CPython's re, codecs.decode('unicode-escape'), int()/float() text conversion"]
 ASSUMPTIONS = ['lone surrogates are thrown at the real parser only (Lean Char is a scalar value)']
@@ -73,6 +75,105 @@ def judge(text, out):
 
 class Timeout(Exception):
     pass
+
+
+BOUNDARY_BASES = VALID + ['1 +', '(1', 'f(1,', '[1, 2', 'a b', '$x.', '{a =>', '1 2', 'f(1) g(2)', ')', 'not', '$.a.b ~', "'s' 's'"]
+
+
+def token_spans(engine, text):
+    """(start, end) of every token the engine's own lexer finds in `text` (up to a lexical error)"""
+    lx = engine.lexer.clone()
+    lx.input(text)
+    spans = []
+    while True:
+        try:
+            t = lx.token()
+        except Exception:       # noqa
+            break
+        if t is None:
+            break
+        spans.append((t.lexpos, lx.lexpos))
+    return spans
+
+
+def boundary_tokens(tier):
+    """tokens at the size limits of the conversions a token action (or an error message) performs: numerals around the
+    interpreter's int<->str digit limit with and without a dot, and very long words / variables / calls / strings"""
+    import sys
+    limit = sys.get_int_max_str_digits() or 4300
+    sizes = [limit - 1, limit, limit + 1, limit + 700] + ([2 * limit, 3 * limit + 1] if tier == 'thorough' else [])
+    out = []
+    for n in sizes:
+        out += [('int%+d' % (n - limit), '9' * n), ('int%+d' % (n - limit), '1' + '0' * (n - 1))]
+    for n in (308, 309, 310):          # the range of a double: int -> float conversion overflows from 1e309 on
+        out += [('int~1e%d' % n, '1' + '0' * n), ('float~1e%d' % n, '1' + '0' * n + '.0')]
+    for n in (limit, limit + 1):
+        out += [('float', '1' * n + '.5'), ('float', '0.' + '1' * n), ('zeros', '0' * n + '7')]
+    big = 5000
+    out += [('word', 'a' * big), ('var', '$' + 'b' * big), ('call', 'f' * big + '('), ('dunder', '__' + 'x' * big),
+            ('str', "'" + 'c' * big + "'"), ('str', '"' + 'c' * big + '\\x4"'), ('str', '`' + 'c' * big + '`'),
+            ('unterminated', "'" + 'c' * big)]
+    return out
+
+
+def gen_boundary(rng, engine, tier):
+    """every boundary-size token in EVERY syntactic position: alone, before and after every atom of the alphabet, inserted
+    at every token gap of valid and invalid expressions and substituted for every one of their tokens - so it also stands
+    where the grammar expects no value, no operator, or nothing at all"""
+    toks = boundary_tokens(tier)
+    quick = tier == 'quick'
+    for name, b in toks:
+        yield 'boundary-alone', b
+        for a in ATOMS:
+            if quick and rng.random() < 0.5:
+                continue
+            yield 'boundary-seq2', a + ' ' + b
+            yield 'boundary-seq2', b + ' ' + a
+            if rng.random() < 0.1:
+                yield 'boundary-seq3', a + ' ' + b + ' ' + rng.choice(ATOMS)
+                yield 'boundary-seq3', rng.choice(ATOMS) + ' ' + a + ' ' + b
+    for v in BOUNDARY_BASES:
+        spans = token_spans(engine, v)
+        gaps = sorted(set([0, len(v)] + [s for s, _ in spans] + [e for _, e in spans]))
+        for name, b in toks:
+            for g in gaps:
+                if quick and rng.random() < 0.6:
+                    continue
+                yield 'boundary-inserted', v[:g] + ' ' + b + ' ' + v[g:]
+            for s_, e_ in spans:
+                if quick and rng.random() < 0.6:
+                    continue
+                yield 'boundary-substituted', v[:s_] + ' ' + b + ' ' + v[e_:]
+    # every run of 1-4 tokens of an expression said TWICE (as a further comma-separated item): the same keyword argument,
+    # dictionary key, element, variable ... a second time, in valid and invalid places
+    for v in BOUNDARY_BASES + ['f(a => 1)', 'f(1, a => 2, b => 3)', '{a => 1}', "dict(a => 1, 'b' => 2)", '$.f(x => $, y => 1)']:
+        spans = token_spans(engine, v)
+        for i in range(len(spans)):
+            for j in range(i + 1, min(len(spans), i + 4) + 1):
+                s_, e_ = spans[i][0], spans[j - 1][1]
+                yield 'said-twice', v[:e_] + ', ' + v[s_:e_] + v[e_:]
+                if not quick or rng.random() < 0.3:
+                    yield 'said-twice', v[:e_] + ' ' + v[s_:e_] + v[e_:]
+    # the whole ARGUMENT-LIST grammar: every sequence of up to 4 slots, each slot positional / empty / named (two names, so
+    # that a name can come twice, adjacent or apart) / a mapping with a non-keyword key, for every kind of caller: function,
+    # method, delegate call on a variable and on a parenthesised value, list, dictionary, indexer.  The semantic actions
+    # run while REDUCING the call are part of parsing; on all engine flavours.
+    slots = ['1', '', 'a => 2', 'b => $', 'a => null', "'a' => 3"]
+    callers = ['f(%s)', '$.f(%s)', 'dict(%s)', '$x(%s)', '(f)(%s)', '[%s]', '{%s}', '$[%s]', 'f(1).g(%s)', 'f(g(%s), a => 1)']
+    for n in range(0, 5):
+        for combo in itertools.product(slots, repeat=n):
+            if n == 4 and quick and rng.random() < 0.5:
+                continue
+            body = ', '.join(combo)
+            for c in (callers if n <= 3 else rng.sample(callers, 3)):
+                yield 'arglist', c % body
+    for _ in range(100 if quick else 1500):
+        k = rng.randrange(2, 8)
+        parts = [rng.choice(ATOMS) for _ in range(k)]
+        parts[rng.randrange(k)] = rng.choice(toks)[1]
+        if rng.random() < 0.3:
+            parts[rng.randrange(k)] = rng.choice(toks)[1]
+        yield 'boundary-soup', ' '.join(parts)
 
 
 def gen_texts(rng, tier):
@@ -219,7 +320,7 @@ def run(env, res):
         rp = json.load(open(env['replay']))['case']
         items = [(rp.get('kind', 'replay'), rp['text'])]
     else:
-        items = gen_texts(rng, tier)
+        items = itertools.chain(gen_texts(rng, tier), gen_boundary(rng, engines['default'], tier))
 
     def on_alarm(signum, frame):
         raise Timeout()
@@ -253,7 +354,7 @@ def run(env, res):
             continue
         seen.add((kind, text))
         for ename, eng in engines.items():
-            if ename != 'default' and kind not in ('seq1', 'seq2', 'mut-del', 'soup', 'escape'):
+            if ename != 'default' and kind not in ('seq1', 'seq2', 'mut-del', 'soup', 'escape', 'boundary-alone', 'boundary-substituted', 'said-twice', 'arglist'):
                 continue
             signal.alarm(20)
             try:
@@ -276,7 +377,7 @@ def run(env, res):
             j = judge(text, out)
             if j:
                 res.fail('oracle', j[0], j[1] + ' [engine %s]' % ename, dict(kind=kind, text=text, engine=ename))
-            elif drv is not None and not lexcfg.has_surrogate(text) and len(text) < 3000:
+            elif drv is not None and not lexcfg.has_surrogate(text) and (len(text) < 3000 or (kind.startswith('boundary') and len(text) < 20000)):
                 tree = None
                 if out[0] == 'ok':
                     try:
@@ -338,7 +439,11 @@ LEVEL_TEXT = ('Lean 4 theorems about the assembled model of engine(text) (lexer 
               'outcome (C03Lex.conversions_total). Tie to the code: the real parser and the compiled model classify the same '
               'generated texts identically (class, position, and the tree when accepted) on three engines; the oracle on the '
               'real code alone is: no foreign exception, position inside the text, termination - also while another thread '
-              'parses on the same engine.')
+              'parses on the same engine. Round 5: C03Bound.tokens_printable / grammar_error_value_printable - every token the parser '
+              'is given, at any position of any text, carries a value that can be formatted into the error message (integers below '
+              '10^maxDigits; longer numerals never become tokens); texts put boundary-size tokens (digit limit, double range, 5000-'
+              'character words and strings) into every syntactic position, say every part twice, and enumerate the argument-list '
+              'grammar on all engine flavours.')
 LEVEL_NOTE = ("trusted: Lean kernel; ply's LALR(1) table construction and master-regex dispatch (the model reproduces their "
               "documented effect; equivalence is differential); CPython re/codecs/int/float conversions (\\N{..} names and "
               "the int digit limit are passed to the model as data); lone surrogates are outside the model (Lean Char) and "
